@@ -17,6 +17,7 @@ import (
 	delegationtypes "github.com/ExocoreNetwork/exocore/x/delegation/types"
 	dogfoodtypes "github.com/ExocoreNetwork/exocore/x/dogfood/types"
 	epochstypes "github.com/ExocoreNetwork/exocore/x/epochs/types"
+	distributiontypes "github.com/ExocoreNetwork/exocore/x/feedistribution/types"
 	operatortypes "github.com/ExocoreNetwork/exocore/x/operator/types"
 	oracletypes "github.com/ExocoreNetwork/exocore/x/oracle/types"
 )
@@ -42,8 +43,20 @@ func newGenWorldCfg(env *Env, rng *RNG, seed uint64, withNST bool) *genWorld {
 		cfg.EpochsUntilUnbonded = genForceUnbond // the draw above is kept so that the random stream does not depend on it
 	}
 	cfg.Assets[0].Addr = strings.ToLower(cfg.Assets[0].Addr) // a genesis document that itself passes Validate
+	// options of dom_genesis_boundary.go (consumed here): a second LST held by nobody at genesis, non-default module params
+	o := genNextOpts
+	genNextOpts = genOpts{}
+	if o.lst2 {
+		cfg.Assets = append(cfg.Assets, AssetSpec{Addr: lst2AddrHex, Decimals: 6, Price: "1", PriceDec: 0})
+	}
+	if o.modParams {
+		cfg.Mutate = genMutateModParams(seed)
+	}
+	if o.equalPowers {
+		cfg.Powers = []int64{100, 100, 100}
+	}
 	c := NewChain(cfg)
-	w := &genWorld{c: c, env: env, rng: rng, optOut: map[int]bool{}}
+	w := &genWorld{c: c, env: env, rng: rng, optOut: map[int]bool{}, selfUnd: map[int]int64{}}
 	for i := 0; i < 4; i++ {
 		w.stakers = append(w.stakers, common.BytesToAddress(detBytes(seed, "gstaker", i)[:20]))
 	}
@@ -225,10 +238,32 @@ func (w *genWorld) check(res roundTripResult, v1, v2 coreView, directed bool) {
 			env.Violate("C18.validate", "validate:assets-wide-address", "a token of a client chain with more than 20 address bytes (admitted by the assets precompile: addressLength >= 20) makes the assets module's own export fail GenesisState.Validate: "+e, w.hist)
 			continue
 		}
+		if m == "operator" && strings.Contains(e, "should be in the avsUSDValues map") {
+			// F-18o: OptIn writes the (AVS, operator) USD value entry at once (InitOperatorUSDValue), the AVS's own USD value is first
+			// written at the AVS's next epoch end (UpdateVotingPower): exported in between, the module's own export is rejected
+			env.Violate("C18.validate", "validate:operator-avs-value-missing", "an operator opted into an AVS whose USD value has not been written yet (first written at the AVS's next epoch end): the operator module's own export fails GenesisState.Validate: "+e, w.hist)
+			continue
+		}
+		if m == "operator" && strings.Contains(e, "the avs address should be in the opted-in map") && strings.Contains(e, "Amount:0.000000000000000000") {
+			// F-18r: UpdateVotingPower writes the AVS's USD value (0) at every epoch end of the AVS, also when no operator ever
+			// opted into it; ValidateAVSUSDValues accepts only AVSs that occur in some opted state
+			env.Violate("C18.validate", "validate:operator-avs-without-operators", "an AVS that no operator has opted into got its USD value (0) written at its epoch end: the operator module's own export fails GenesisState.Validate: "+e, w.hist)
+			continue
+		}
+		if m == "operator" && strings.Contains(e, "shouldn't be greater than the total USD value of the AVS") && w.inactiveAboveAVS() {
+			// F-18p: UpdateVotingPower adds only the ACTIVE operators' totals (self value >= the AVS's minimum self delegation) to the
+			// AVS's USD value, but stores the total of an inactive operator too; Validate compares every operator's total with it
+			env.Violate("C18.validate", "validate:operator-inactive-total", "an operator below the AVS's minimum self delegation (active value 0) whose total USD value exceeds the sum of the active operators' totals: the operator module's own export fails GenesisState.Validate: "+e, w.hist)
+			continue
+		}
 		env.Violate("C18.validate", "validate:"+m, "exported "+m+" genesis fails Validate: "+e, w.hist)
 	}
 	env.Eval("C18.json")
 	for i, m := range res.jsonDiff {
+		if m == "operator" && strings.Join(w.lastOp.ops, ",") != strings.Join(res.postOp.ops, ",") {
+			env.Violate("C18.json", "operator-earnings-changed", fmt.Sprintf("InitGenesis changed an operator's earnings address: before the export %v, re-imported %v: %s", w.lastOp.ops, res.postOp.ops, res.jsonWhere[i]), w.hist)
+			continue
+		}
 		if m == "operator" && strings.Contains(res.jsonWhere[i], "update_time") {
 			// F-18g (repaired): kept under its own sig so that a re-introduction is reported as such
 			env.Violate("C18.json", "operator-update-time", "InitGenesis changed an operator's commission update_time: "+res.jsonWhere[i], w.hist)
@@ -276,7 +311,12 @@ func (w *genWorld) check(res roundTripResult, v1, v2 coreView, directed bool) {
 						isPrev = true
 					}
 				}
-				if isPrev {
+				if isPrev && k[0] == '+' {
+					// F-18q: the operator was NOT an active validator when it replaced the key: AfterOperatorKeyReplaced deleted the
+					// reverse lookup at once (nothing to prune) but the PrevConsKey record stays until the epoch ends, and
+					// SetAllPrevConsKeys rebuilds the lookup of every exported previous key
+					env.Violate("C18.store", "prev-key-reverse-resurrected", "the re-imported chain holds a reverse lookup (consensus address "+cons+" -> operator) that the original chain deleted when the key was replaced (the operator was not in the validator set, so x/dogfood removed the lookup at once instead of queueing it for pruning): SetAllPrevConsKeys rebuilds the lookup of every previous key; it is in no prune queue and is never removed", w.hist)
+				} else if isPrev {
 					env.Violate("C18.store", "prev-key-reverse-lost", "the reverse lookup (consensus address "+cons+" -> operator) of a key replaced during the running epoch is missing after the round trip", w.hist)
 				} else {
 					env.Outcome("gap:F-18i:operator")
@@ -290,6 +330,13 @@ func (w *genWorld) check(res roundTripResult, v1, v2 coreView, directed bool) {
 				if b, err := hex.DecodeString(k[1:]); err == nil && strings.HasPrefix(string(b), oracletypes.NativeTokenStakerListKeyPrefix) {
 					// F-18l: the staker list is re-imported under prefix+prefix+assetID; prefix+assetID is missing
 					env.Violate("C18.store", "oracle-stakerlist-key-doubled", fmt.Sprintf("x/oracle staker list entry %q differs after the round trip (%c): SetStakerList prepends the store prefix to an exported asset id that already carries it", string(b), k[0]), w.hist)
+					continue
+				}
+			}
+			if m == "feedistribution" && p == 0x66 {
+				// 0x66 = 'f': the fee pool ("feePoolKey", F-18e: not exported) AND the params ("feedistributionPrefixParams…", exported)
+				if b, err := hex.DecodeString(k[1:]); err == nil && strings.HasPrefix(string(b), string(distributiontypes.KeyPrefixParams)) {
+					env.Violate("C18.store", "store:feedistribution:params", "module feedistribution: the params differ after the round trip ("+string(k[0])+" "+string(b)+"): the export does not carry the params the chain runs with", w.hist)
 					continue
 				}
 			}
@@ -349,15 +396,58 @@ func (w *genWorld) check(res roundTripResult, v1, v2 coreView, directed bool) {
 
 func (w *genWorld) randomOps(n int) {
 	c := w.c
-	free := map[int]int64{}     // deposited and not delegated, per staker
-	deleg := map[[2]int]int64{} // delegated, per (staker, operator)
+	free := map[[2]int]int64{}          // deposited and not delegated, per (staker, asset)
+	deleg := map[[3]int]int64{}         // delegated, per (staker, operator, asset)
+	fav := w.rng.Intn(len(c.Operators)) // the operator most delegations of the second LST go to
 	for i := 0; i < n; i++ {
 		si := w.rng.Intn(len(w.stakers))
 		oi := w.rng.Intn(len(c.Operators))
-		switch w.rng.Pick(3, 4, 4, 1, 4, 1, 2, 2, 1, 1) {
+		// the asset this step acts on: mostly the first LST; the second one (if the world has it) has few holders and
+		// mostly one operator, so that "everything of an asset is with one operator" is an ordinary export point
+		ai := 0
+		if len(c.Cfg.Assets) > 1 && c.Cfg.Assets[1].Addr == lst2AddrHex && w.rng.Chance(1, 3) {
+			ai = 1
+			si = w.rng.Intn(2)
+			if w.rng.Chance(4, 5) {
+				oi = fav
+			}
+		}
+		w.asset = ai
+		// whole amounts (all that is free / all that is delegated) as often as partial ones: zero remainders
+		whole := w.rng.Chance(1, 3)
+		switch w.rng.Pick(3, 4, 4, 1, 4, 1, 2, 2, 1, 1, 1, 2, 1) {
+		case 12:
+			// a genesis operator undelegates (a part of / all of) the stake it delegated to itself at genesis
+			g := w.rng.Intn(c.Cfg.NOperators)
+			left := c.Cfg.Powers[g]*1000000 - w.selfUnd[g]
+			if left <= 0 || !w.othersUntouched(g) {
+				continue
+			}
+			amt := 1 + w.rng.Int63n(left)
+			if whole {
+				amt = left
+			}
+			err := w.selfUndelegate(g, amt)
+			if err == nil {
+				w.selfUnd[g] += amt
+			}
+			w.env.Outcome(fmt.Sprintf("op:selfundelegate:whole=%v:%s", amt == left, genErrClass(err)))
+		case 11:
+			// opt into the second AVS and stay (exported while opted in), or leave it if already in
+			if w.inAVS2[oi] {
+				w.env.Outcome("op:optout2:" + genErrClass(w.optOutAVS2(oi)))
+			} else {
+				w.env.Outcome("op:optin2:" + genErrClass(w.optInStay(oi)))
+			}
+		case 10:
+			// a further operator: registered during the history, no stake of its own
+			if w.nextOp >= 3 {
+				continue
+			}
+			w.env.Outcome("op:registeroperator:" + genErrClass(w.registerOperator(w.rng.Chance(1, 2))))
 		case 9:
 			// one operator per history starts to opt out of the chain's own AVS: exported mid opt-out when epochs remain
-			if len(w.optOut) > 0 {
+			if len(w.optOut) > 0 || oi >= c.Cfg.NOperators || !w.othersUntouched(oi) {
 				continue
 			}
 			err := w.optOutOp(oi)
@@ -367,17 +457,21 @@ func (w *genWorld) randomOps(n int) {
 			w.note("operator=%d opts out of the chain AVS: %s", oi, genErrClass(err))
 			w.env.Outcome("op:optout:" + genErrClass(err))
 		case 7:
-			// withdraw part of what is deposited and not delegated
-			if free[si] == 0 {
+			// withdraw part of (or all of) what is deposited and not delegated
+			k := [2]int{si, ai}
+			if free[k] == 0 {
 				continue
 			}
-			amt := 1 + w.rng.Int63n(free[si])
+			amt := 1 + w.rng.Int63n(free[k])
+			if whole {
+				amt = free[k]
+			}
 			if w.rng.Chance(1, 8) {
-				amt = free[si] + 1 // more than withdrawable: must be rejected
+				amt = free[k] + 1 // more than withdrawable: must be rejected
 			}
 			err := w.withdraw(si, amt)
 			if err == nil {
-				free[si] -= amt
+				free[k] -= amt
 			}
 			w.env.Outcome("op:withdraw:" + genErrClass(err))
 		case 8:
@@ -386,6 +480,9 @@ func (w *genWorld) randomOps(n int) {
 			w.env.Outcome("op:registerchain:" + w.registerWideChain(uint32(200+w.nextChain), 20))
 		case 6:
 			// opt into the second AVS and out again, in the same block or one block later
+			if w.inAVS2[oi] {
+				continue
+			}
 			same := w.rng.Chance(1, 2)
 			eIn, eOut := w.optInOut(oi, same)
 			w.env.Outcome(fmt.Sprintf("op:optinout:same=%v:%s/%s", same, genErrClass(eIn), genErrClass(eOut)))
@@ -393,37 +490,37 @@ func (w *genWorld) randomOps(n int) {
 			amt := int64(1+w.rng.Intn(50)) * 1000000
 			err := w.deposit(si, amt)
 			if err == nil {
-				free[si] += amt
+				free[[2]int{si, ai}] += amt
 			}
 			w.env.Outcome("op:deposit:" + genErrClass(err))
 		case 1:
-			if free[si] == 0 {
+			k := [2]int{si, ai}
+			if free[k] == 0 {
 				if w.deposit(si, 20000000) == nil {
-					free[si] += 20000000
+					free[k] += 20000000
 				}
 			}
-			amt := 1 + w.rng.Int63n(free[si])
+			amt := 1 + w.rng.Int63n(free[k])
+			if whole {
+				amt = free[k]
+			}
 			if w.rng.Chance(1, 10) {
-				amt = free[si] + 1 // more than available: must be rejected
+				amt = free[k] + 1 // more than available: must be rejected
 			}
 			err := w.delegate(si, oi, amt, false)
 			if err == nil {
-				free[si] -= amt
-				deleg[[2]int{si, oi}] += amt
+				free[k] -= amt
+				deleg[[3]int{si, oi, ai}] += amt
 			}
-			w.env.Outcome("op:delegate:" + genErrClass(err))
+			w.env.Outcome(fmt.Sprintf("op:delegate:asset=%d:%s", ai, genErrClass(err)))
 		case 2:
-			k := [2]int{si, oi}
+			k := [3]int{si, oi, ai}
 			if deleg[k] == 0 {
-				for kk, v := range map[[2]int]int64(deleg) { // any existing delegation, deterministic pick below
-					_ = kk
-					_ = v
-				}
 				found := false
 				for s2 := 0; s2 < len(w.stakers) && !found; s2++ {
 					for o2 := 0; o2 < len(c.Operators) && !found; o2++ {
-						if deleg[[2]int{s2, o2}] > 0 {
-							k = [2]int{s2, o2}
+						if deleg[[3]int{s2, o2, ai}] > 0 {
+							k = [3]int{s2, o2, ai}
 							found = true
 						}
 					}
@@ -433,12 +530,18 @@ func (w *genWorld) randomOps(n int) {
 				}
 			}
 			amt := 1 + w.rng.Int63n(deleg[k])
+			if whole {
+				amt = deleg[k]
+			}
 			err := w.delegate(k[0], k[1], amt, true)
 			if err == nil {
 				deleg[k] -= amt
 			}
-			w.env.Outcome("op:undelegate:" + genErrClass(err))
+			w.env.Outcome(fmt.Sprintf("op:undelegate:asset=%d:whole=%v:%s", ai, deleg[k] == 0, genErrClass(err)))
 		case 3:
+			if oi >= c.Cfg.NOperators {
+				continue // operators registered during the history are not opted into the chain's AVS: they have no key to replace
+			}
 			w.env.Outcome("op:replacekey:" + genErrClass(w.replaceKey(oi)))
 		case 4:
 			d := []time.Duration{time.Second, time.Minute, 31 * time.Minute, time.Hour + time.Second}[w.rng.Intn(4)]
@@ -449,12 +552,14 @@ func (w *genWorld) randomOps(n int) {
 			}
 		case 5:
 			// oracle price round / extra epochs elapse
+			w.note("next block +3h")
 			if r := c.EndAndBegin(3 * time.Hour); r.Halt != "" {
 				w.env.Violate("C18.halt", "halt", "block processing panicked: "+r.Halt, w.hist)
 				return
 			}
 		}
 	}
+	w.asset = 0
 }
 
 // runOne: build a state, export/import, emit model ops + observation, evaluate monitors.
@@ -473,17 +578,26 @@ func (w *genWorld) runOne(nOps int, directed bool, cont int) {
 	w.emitCore(v1)
 	a1 := viewAssets(c, committedCtx(c))
 	w.emitAssets(a1)
+	o1 := viewOperator(c, committedCtx(c))
+	w.lastOp = o1
+	w.emitOperator(o1)
+	p1 := viewParams(c, committedCtx(c))
+	w.emitParams(p1)
 	res := w.roundTripWith(cont, directed)
 	var v2 coreView
-	obs, aobs := "import-failed", "import-failed"
+	obs, aobs, oobs, pobs := "import-failed", "import-failed", "import-failed", "import-failed"
 	if res.c2 != nil {
 		v2 = res.post
 		obs = v2.obs()
 		// the module's own verdict on its export, then the re-imported stores
 		aobs = fmt.Sprintf("validate=%v init=ok %s", res.validateErr["assets"] == "", res.postAssets.obs())
+		oobs = fmt.Sprintf("validate=%v %s", res.validateErr["operator"] == "", res.postOp.obs())
+		pobs = "init=ok " + res.postParams.obs()
 	}
 	w.op("gen.roundtrip", obs)
 	w.op("gen.assets", aobs)
+	w.op("gen.operator", oobs)
+	w.op("gen.params", pobs)
 	w.check(res, v1, v2, directed)
 	w.env.Report.Histories++
 	if len(v1.unds) > 0 || len(v1.rev) > len(v1.cur) {
@@ -636,7 +750,12 @@ func domGenesis(env *Env) error {
 			w.runOne(0, true, 12)
 		}
 	}
+	if env.Int("boundary", 1) != 0 {
+		genBoundary(env, rng)
+	}
 	for hi := 0; hi < n; hi++ {
+		// every second world has the second LST, two of three start from non-default x/exomint / x/feedistribution params
+		genNextOpts = genOpts{lst2: hi%2 == 1, modParams: hi%3 != 0}
 		w := newGenWorld(env, rng, env.Report.Seed*1000+uint64(hi))
 		w.runOne(5+rng.Intn(ops), false, cont)
 		if hi < 2 {
